@@ -160,6 +160,51 @@ func H_C04_State2() {
 	k.ClearContext()
 }
 
+// H_C04_ClearSetRoutine: the context is cleared while an instance is still returning, the
+// routine is replaced while there is no context, and the context is set again: the new
+// instance must still wait for the old one.
+func H_C04_ClearSetRoutine() {
+	var p rtProbe
+	ctxA, cancelA := context.WithCancel(context.Background())
+	k := routine.NewRoutineContainer()
+	k.SetContext(ctxA, false)
+	k.SetRoutine(p.untilCancelled)
+	k.ClearContext()
+	k.SetRoutine(p.untilCancelled)
+	k.SetContext(ctxA, false)
+	k.ClearContext()
+	cancelA()
+}
+
+// H_C04_NilRoutine: SetRoutine(nil) while an instance is still returning, then a new routine.
+func H_C04_NilRoutine() {
+	var p rtProbe
+	k := routine.NewRoutineContainer()
+	k.SetContext(context.Background(), false)
+	k.SetRoutine(p.untilCancelled)
+	k.SetRoutine(nil)
+	k.SetRoutine(p.untilCancelled)
+	k.ClearContext()
+}
+
+// H_C04_StateEmpty: SetState(1); SetState(empty) stops the routine; SetState(2) starts a new
+// instance, which must wait for the first one to return.
+func H_C04_StateEmpty() {
+	var p rtProbe
+	k := routine.NewStateRoutineContainer[int](nil)
+	k.SetContext(context.Background(), false)
+	k.SetStateRoutine(func(ctx context.Context, st int) error {
+		p.enter(ctx, st)
+		<-ctx.Done()
+		p.leave()
+		return context.Canceled
+	})
+	k.SetState(1)
+	k.SetState(0)
+	k.SetState(2)
+	k.ClearContext()
+}
+
 type oneMsBackoff struct{}
 
 func (oneMsBackoff) NextBackOff() time.Duration { return time.Millisecond }
